@@ -125,6 +125,20 @@ func detProjects(n int) []*detCase {
 			&proj.Conv{Dir: "a", File: "conv.go", Name: "ConvA", Lines: []string{"extend NeedsCtx"},
 				Extra:   "func NeedsCtx(source int, ctxA string, ctxB bool) string { return \"\" }\n",
 				RawBody: "\t// goverter:context ctxC\n\t// goverter:context ctxD\n\tConvert(source In, ctxC float64, ctxD uint) OutBad\n"})
+		// many packages (more patterns than any batch size a loader might use), every converter using ONE custom function of
+		// a shared package over a named type of that package: all of them must see the same type, in every run
+		{
+			id := len(cs)
+			mod := fmt.Sprintf("example.org/d%d", id)
+			extra := scratch.Tree{"stamp/stamp.go": "package stamp\n\ntype Stamp struct{ V int }\ntype Label struct{ V int }\n\nfunc ToLabel(s Stamp) Label { return Label{V: s.V} }\n"}
+			var dirs []string
+			for k := 0; k < 36; k++ {
+				d := fmt.Sprintf("q%02d", k)
+				dirs = append(dirs, d)
+				extra[d+"/conv.go"] = "package " + d + "\n\nimport \"" + mod + "/stamp\"\n\ntype In struct{ S stamp.Stamp }\ntype Out struct{ S stamp.Label }\n\n// goverter:converter\n// goverter:extend " + mod + "/stamp:ToLabel\ntype C interface {\n\tConvert(source In) Out\n}\n"
+			}
+			cs = append(cs, &detCase{ID: id, Kind: "many-packages-one-shared-function", Dirs: dirs, Project: &proj.Project{Module: mod, Extra: extra}})
+		}
 		if len(cs) == k {
 			break
 		}
@@ -153,7 +167,7 @@ func runC09(e *env) error {
 	bin := goverterBin(e)
 	base := filepath.Join(e.scratch, "c09")
 	_ = os.MkdirAll(base, 0o755)
-	n, reps := 16, 4
+	n, reps := 17, 4
 	if e.thorough {
 		n, reps = 48*e.scale, 12
 	}
